@@ -63,14 +63,24 @@ BASE_TRUSTED = [
 
 
 class Lock:
+    """the build lock; re-entrant within a process (facts, build, axiom audit and leanchecker of one
+    check run under ONE acquisition: another check run against another tree regenerates the facts
+    and rebuilds the proof modules, and must not do so between this run's build and its audit)"""
+    depth = 0
+    f = None
+
     def __enter__(self):
-        self.f = open(os.path.join(VERIF, '.lock'), 'w')
-        fcntl.flock(self.f, fcntl.LOCK_EX)
+        if Lock.depth == 0:
+            Lock.f = open(os.path.join(VERIF, '.lock'), 'w')
+            fcntl.flock(Lock.f, fcntl.LOCK_EX)
+        Lock.depth += 1
         return self
 
     def __exit__(self, *a):
-        fcntl.flock(self.f, fcntl.LOCK_UN)
-        self.f.close()
+        Lock.depth -= 1
+        if Lock.depth == 0:
+            fcntl.flock(Lock.f, fcntl.LOCK_UN)
+            Lock.f.close()
 
 
 def sh(cmd, cwd=None, timeout=3600, env=None):
@@ -358,25 +368,25 @@ def main_check(mod, argv):
     if args.replay:
         return replay(mod, args.replay)
 
-    # 1. facts + build
-    b = build(prop, mod.LEAN_MODULES) if not args.no_build else {
-        'extract_problems': [], 'facts_changed': [], 'driver_ok': True,
-        'props_ok': {m: True for m in mod.LEAN_MODULES}, 'logs': {}}
-    if not b['driver_ok']:
-        print('driver build failed:\n' + b['logs'].get('driver', ''))
-    broken_modules = [m for m, ok in b['props_ok'].items() if not ok]
+    # 1. facts + build, 2. audit — under one acquisition of the build lock
+    with Lock():
+        b = build(prop, mod.LEAN_MODULES) if not args.no_build else {
+            'extract_problems': [], 'facts_changed': [], 'driver_ok': True,
+            'props_ok': {m: True for m in mod.LEAN_MODULES}, 'logs': {}}
+        if not b['driver_ok']:
+            print('driver build failed:\n' + b['logs'].get('driver', ''))
+        broken_modules = [m for m, ok in b['props_ok'].items() if not ok]
 
-    # 2. audit
-    forb = grep_forbidden(prop)
-    aud = {'ok': False, 'theorems': [], 'bad': []}
-    good_modules = [m for m in mod.LEAN_MODULES if b['props_ok'].get(m)]
-    if good_modules:
-        aud = audit(good_modules)
-    checker_ok = True
-    if tier == 'thorough' and good_modules:
-        checker_ok, checker_out = leanchecker(good_modules)
-        if not checker_ok:
-            print('leanchecker failed: ' + checker_out)
+        forb = grep_forbidden(prop)
+        aud = {'ok': False, 'theorems': [], 'bad': []}
+        good_modules = [m for m in mod.LEAN_MODULES if b['props_ok'].get(m)]
+        if good_modules:
+            aud = audit(good_modules)
+        checker_ok = True
+        if tier == 'thorough' and good_modules:
+            checker_ok, checker_out = leanchecker(good_modules)
+            if not checker_ok:
+                print('leanchecker failed: ' + checker_out)
 
     # 3. corpus + generated cases
     rng = random.Random(seed * 1000003 + 17)
